@@ -43,4 +43,8 @@ class Xstrict(Compiler):
         # Call the GBS compiler to do basic measurement validation.
         # The GBS compiler also merges multiple measurement commands
         # into a single MeasureFock command at the end of the circuit.
-        return GBS().compile(seq, registers)
+        seq = GBS().compile(seq, registers)
+
+        # check the topology and the hard-coded parameters against the device layout
+        # (if one has been set for this compiler)
+        return super().compile(seq, registers)
